@@ -82,6 +82,7 @@ type Exec struct {
 	reachMemo map[*ssa.Function][][]bool
 	targetPkgs map[string]bool
 	private   []privCell
+	privMaps  []privMap
 	constGlobals map[string]Val
 	tagFacts    []*Term
 	sealedImpls map[string][]int
